@@ -73,6 +73,8 @@ where
         let waker = LazyCell::default();
         let mut effective_length = buffer.len();
         loop {
+            #[cfg(feature = "verif-hooks")]
+            crate::verif_hooks::preempt_point("concurrent.read_all").await;
             // The `read` method requires an initialized buffer, so we reserve
             // additional capacity and fill it with zeros.
             let unused = buffer.capacity() - effective_length;
@@ -150,6 +152,8 @@ where
         let this = TemporaryNonBlockingGuard::new(self, fd);
         let waker = LazyCell::default();
         loop {
+            #[cfg(feature = "verif-hooks")]
+            crate::verif_hooks::preempt_point("concurrent.write_all").await;
             match this.inner.write(fd, data).await {
                 #[allow(
                     unreachable_patterns,
